@@ -10,8 +10,8 @@ PROP = "C20"
 LEVEL = "exploration"
 ALPH = ["a", "Z", "0", "_", ".", "-", ":", "/", "#", " ", "\t", "\n", "[", "]", "é"]
 # one representative per class: letter (two cases), digit, '_', '.', '-', ':', '/', '#', space, tab, newline, '[', ']', non-ASCII letter
-LMAX = {"quick": 4, "thorough": 6}
-CHUNK = {"quick": 1500, "thorough": 40000}
+LMAX = {"quick": 4, "thorough": 7}
+CHUNK = {"quick": 1500, "thorough": 400000}
 RANDOM_CASES = {"quick": 80, "thorough": 4000}
 
 
@@ -25,13 +25,13 @@ def _chunks(tier):
 
 CASES = {t: _chunks(t) + RANDOM_CASES[t] for t in LMAX}
 SHARDS = {"quick": 8, "thorough": 16}
-TIMEOUT = {"quick": 240, "thorough": 3400}
+TIMEOUT = {"quick": 240, "thorough": 7000}
 ANCHORS = ["w3c.py:is_w3c_prefix", "w3c.py:is_w3c_curie", "w3c.py:_is_w3c_luid"]
 DECIDING = ["w3c:is_w3c_prefix", "w3c:is_w3c_curie"]
 REPO_TESTS = True
 RULE = (
     "every string over one representative per character class (letters 'a','Z', digit, '_', '.', '-', ':', '/', '#', "
-    "space, tab, newline, '[', ']', non-ASCII letter 'é') up to length 4 (quick) / 6 (thorough), the empty string "
+    "space, tab, newline, '[', ']', non-ASCII letter 'é') up to length 4 (quick) / 7 (thorough), the empty string "
     "included, is given to both validators - exhaustive for that bound (coverage.exhaustive is set only if the number of "
     "enumerated strings equals the size of the space) - plus random strings up to length 40 over the same classes, "
     "other Unicode whitespace (NBSP, EM SPACE, LINE SEPARATOR, \\x1c, \\x85, \\r, \\x0b, \\x0c) and other non-ASCII letters and "
